@@ -50,6 +50,11 @@ def connect_rules(A, cf, rule):
                         key='%s-connect-busy' % name, detail=v.describe())
             continue
         n += 1
+        A.check(not v.writes('self.state'), rule + '.state-owner', '%s connect() leaves the '
+                'state to the transport-specific connect (which sets it only on success)' % name,
+                A.site(fi), key='%s-connect-writes-state' % name, detail=v.describe(),
+                behaviour='a failed connect() leaves the client in an intermediate state: '
+                          'connect() cannot be retried')
         w = [i for i, val in v.writes('self.queue') if val == 'self.create_queue()']
         A.check(bool(w) and w[0] < go[0] and
                 ("self.state == 'disconnected'", True) in v.guard_atoms(),
@@ -194,7 +199,8 @@ def connect_websocket_rules(A, cf, rule, probe_rule=None):
                 if p.outcome == 'return':
                     n_fail += 1
                     A.check(txt(p.value) == 'False' and not loops and not st and
-                            not v.writes('self.ws'), rule + '.upgrade-failed',
+                            not v.writes('self.ws') and not v.writes('self.current_transport'),
+                            rule + '.upgrade-failed',
                             '%s: a failed upgrade returns False and leaves the polling '
                             'connection untouched' % name, A.site(fi),
                             key='%s-client-upgrade-failed' % name, detail=v.describe(70),
